@@ -39,11 +39,132 @@ func sameValue(a, b ssa.Value) bool {
 	return false
 }
 
+// norm strips conversions and looks through single-assignment variable cells (a parameter
+// or local captured by a closure is spilled to an Alloc that is stored exactly once).
+func norm(v ssa.Value) ssa.Value {
+	for i := 0; i < 6; i++ {
+		v = strip(v)
+		u, ok := v.(*ssa.UnOp)
+		if !ok || u.Op != token.MUL {
+			return v
+		}
+		al, ok := u.X.(*ssa.Alloc)
+		if !ok {
+			return v
+		}
+		var val ssa.Value
+		n := 0
+		for _, ref := range *al.Referrers() {
+			if st, ok := ref.(*ssa.Store); ok && st.Addr == al {
+				val = st.Val
+				n++
+			}
+		}
+		if n != 1 || escapesToWriter(al) {
+			return v
+		}
+		v = val
+	}
+	return v
+}
+
+// freeVarValue resolves a (load of a) captured variable to the value bound in the creating
+// function when that is unambiguous.
+func freeVarValue(v ssa.Value) ssa.Value {
+	for i := 0; i < 4; i++ {
+		var fv *ssa.FreeVar
+		deref := false
+		switch x := v.(type) {
+		case *ssa.FreeVar:
+			fv = x
+		case *ssa.UnOp:
+			if x.Op == token.MUL {
+				if f, ok := x.X.(*ssa.FreeVar); ok {
+					fv, deref = f, true
+				}
+			}
+		}
+		if fv == nil {
+			return v
+		}
+		fn := fv.Parent()
+		par := fn.Parent()
+		if par == nil {
+			return v
+		}
+		idx := -1
+		for i, f := range fn.FreeVars {
+			if f == fv {
+				idx = i
+			}
+		}
+		var bound ssa.Value
+		n := 0
+		allInstrs(par, func(ins ssa.Instruction) {
+			if mc, ok := ins.(*ssa.MakeClosure); ok && mc.Fn == fn && idx >= 0 {
+				bound = mc.Bindings[idx]
+				n++
+			}
+		})
+		if n != 1 {
+			return v
+		}
+		if deref {
+			// bound is the address of a cell in the parent
+			switch b := bound.(type) {
+			case *ssa.Alloc:
+				var val ssa.Value
+				cnt := 0
+				for _, ref := range *b.Referrers() {
+					if st, ok := ref.(*ssa.Store); ok && st.Addr == b {
+						val = st.Val
+						cnt++
+					}
+				}
+				if cnt != 1 || escapesToWriter(b) {
+					return v
+				}
+				v = norm(val)
+			case *ssa.FreeVar:
+				v = &ssa.UnOp{Op: token.MUL, X: b}
+			default:
+				return v
+			}
+		} else {
+			v = norm(bound)
+		}
+	}
+	return v
+}
+
+// escapesToWriter: the cell is captured by a closure that stores into it.
+func escapesToWriter(al *ssa.Alloc) bool {
+	for _, ref := range *al.Referrers() {
+		mc, ok := ref.(*ssa.MakeClosure)
+		if !ok {
+			continue
+		}
+		fn := mc.Fn.(*ssa.Function)
+		for i, b := range mc.Bindings {
+			if b != al {
+				continue
+			}
+			fv := fn.FreeVars[i]
+			for _, r2 := range *fv.Referrers() {
+				if st, ok := r2.(*ssa.Store); ok && st.Addr == fv {
+					return true
+				}
+			}
+		}
+	}
+	return false
+}
+
 // sameExpr: structural equality of pure address/value expressions (two loads of the same field
 // of the same base, conversions of the same value …). go/ssa performs no CSE, so `c.slock`
 // evaluated twice yields two loads; for pairing lock operations that is the same lock.
 func sameExpr(a, b ssa.Value) bool {
-	a, b = strip(a), strip(b)
+	a, b = norm(a), norm(b)
 	if sameValue(a, b) {
 		return true
 	}
